@@ -132,10 +132,24 @@ func (w *KafkaWriter) WriteEvent(e interface{}) {
 	}
 }
 
+func (w *KafkaWriter) writeBatch(messagesToSend []kafka.Message) {
+	metric := w.newMetric(KAFKAWRITER)
+	metric.AddValue("messages_sent", len(messagesToSend))
+	metric.AddValue("messages_failed", 0)
+
+	w.writeFunction(messagesToSend, &metric)
+
+	monitoring.Send(metric)
+}
+
 func (w *KafkaWriter) writingLoop() {
 	for {
 		select {
 		case <-w.batchingLoopDoneCh:
+			// the batching loop is done: flush what it pushed while a write was in progress
+			for w.messageBuffer.Length() > 0 {
+				w.writeBatch(w.messageBuffer.PopMultiple(100))
+			}
 			w.runningWorkers.Done()
 			return
 		default:
@@ -144,13 +158,7 @@ func (w *KafkaWriter) writingLoop() {
 				continue
 			}
 
-			metric := w.newMetric(KAFKAWRITER)
-			metric.AddValue("messages_sent", len(messagesToSend))
-			metric.AddValue("messages_failed", 0)
-
-			w.writeFunction(messagesToSend, &metric)
-
-			monitoring.Send(metric)
+			w.writeBatch(messagesToSend)
 		}
 	}
 }
